@@ -604,6 +604,18 @@ def run(ck):
           "the stop time stamp (e.g. when the circuit has no persistent block): stale entries "
           "survive and are restored by a later start", cpd, dels[0].ast if dels else cpd.node,
           witness=path_witness(gcp, wit1 or wit2))
+    # ... and the function is actually run: every start passes it before any block is initialised
+    grf = ck.cfg(rf.fid, 'M0')
+    callc = nodes_where(grf, lambda n: any(call_name(c) == '_check_persistent_data' and recv(c) == 'self'
+                                           for c in node_calls(n)))
+    inits = nodes_where(grf, lambda n: any(call_name(c) in ('_init_sblocks_sync_1', 'start') for c in node_calls(n)))
+    okc = bool(callc) and bool(inits) and all(any(grf.dominates(c_, i_) for c_ in callc) for i_ in inits)
+    ck.ob(R8, f"{rf.fid} :: storage checked before the blocks are started and restored", okc,
+          "self._check_persistent_data() dominates the start() loop and the first initialisation "
+          "pass" if okc else
+          "run_forever starts / initialises blocks without having called _check_persistent_data(): "
+          "the stop time stamp is never read (expiration is not checked) and stale entries are not "
+          "purged", rf, callc[0].ast if callc else rf.node)
     pb = nodes_where(gcp, lambda n: isinstance(n.ast, ast.Assign) and norm(n.ast.targets[0]) == 'persistent_blocks')
     ok = len(pb) == 1 and 'getblocks(addons.AddonPersistence)' in norm(pb[0].ast.value) and \
         'blk.persistent' in norm(pb[0].ast.value)
